@@ -196,6 +196,7 @@ def explore(run, spec):
     depth_done = 0
     fixpoint = False
     per_level = []
+    all_states = list(frontier)
     for d in range(1, spec.depth + 1):
         if not frontier:
             fixpoint = True
@@ -210,6 +211,7 @@ def explore(run, spec):
                     continue
                 _SEEN.add(key)
                 nxt.append((sname, hist))
+                all_states.append((sname, hist))
         per_level.append({'depth': d, 'frontier_in': len(frontier), 'new_states': len(nxt)})
         depth_done = d
         frontier = nxt
@@ -220,7 +222,8 @@ def explore(run, spec):
             'alphabet_size': len(spec.ops), 'starts': list(spec.starts),
             'unexpanded_frontier': len(frontier)}
     key = 'search' + (':' + spec.label if spec.label else '')
-    run.extra[key] = info
+    run.extra[key] = dict(info)
+    info['states'] = all_states
     return info
 
 
